@@ -35,6 +35,9 @@ type Program struct {
 
 const contractFileName = "zz_verif_contracts.go"
 
+// implSuffix marks the key of an "impl" view of a function's contract (see parseContracts).
+const implSuffix = "~impl"
+
 func loadProgram(repo string, patterns []string) (*Program, error) {
 	fset := token.NewFileSet()
 	env := append(os.Environ(), "GOFLAGS=-mod=mod", "GOPROXY=off", "GOSUMDB=off", "GOTOOLCHAIN=local")
